@@ -6,7 +6,7 @@
    on the model of the recorded finding (split TRIG sections). *)
 From Coq Require Import String NArith List Bool.
 From RC Require Import lib.Result lib.Bytes model.Layout model.Str model.StrEditor model.Alloc model.ChkIo model.RichCodec
-  model.RichIo proofs.C07_proofs proofs.C08_proofs proofs.C10_proofs proofs.Save_strings proofs.Save_sizes proofs.C07_untouched proofs.C07_ops proofs.C07_slots.
+  model.RichIo proofs.C07_proofs proofs.C08_proofs proofs.C10_proofs proofs.Save_strings proofs.Save_sizes proofs.C07_untouched proofs.C07_ops proofs.C07_slots proofs.C07_triggers proofs.C07_example.
 Import ListNotations.
 Local Open Scope N_scope.
 
@@ -112,3 +112,49 @@ Theorem C07_existing_location_slots_are_kept :
       forall i, In i (map fst (by_idx ls)) -> assocN_last i (by_idx (fst mr)) = assocN_last i (by_idx ls).
 Proof. exact existing_location_slots_are_kept. Qed.
 Print Assumptions C07_existing_location_slots_are_kept.
+
+(* EVERY PRE-EXISTING TRIGGER IS UNCHANGED, BYTE FOR BYTE.  The unedited map r0 and ANY edited map r' that still holds the
+   same decoded STR section, location table and unit-property table, and whose trigger section at position i is the old
+   trigger list followed by new triggers, are saved (same sound metadata).  Then position i of both outputs is a TRIG
+   section, and every trigger record of the unedited output is, at the same index, a record of the edited output -
+   whatever new strings, locations, switches and unit-property sets the edits made the save place.
+   trigger_ok says what "pre-existing" means: every argument of the trigger denotes something that sits in the loaded
+   map's tables (a text the string table resolves, a location / unit-property set occupying a slot, a numbered switch). *)
+Theorem C07_preexisting_triggers_are_unchanged_byte_for_byte :
+  forall r0 r' wd d0 d' m bin T ls cs i ts new,
+    filter (named "STR ") r0 = [RDecodedStr "STR " 2 m] -> filter (named "STR ") r' = [RDecodedStr "STR " 2 m] ->
+    wf_table 2 m bin -> build_lookup 2 m = Ok T ->
+    Forall clean (flat_map section_strings r0) -> Forall clean (flat_map section_strings r') ->
+    filter (named "MRGN") r0 = [RMrgn ls] -> filter (named "MRGN") r' = [RMrgn ls] ->
+    filter (named "UPRP") r0 = [RUprp cs] -> filter (named "UPRP") r' = [RUprp cs] ->
+    nth_error r0 i = Some (RTrig ts) -> nth_error r' i = Some (RTrig (ts ++ new)) ->
+    Forall (trigger_ok T ls cs r0 r') ts ->
+    save wd r0 = Ok d0 -> save wd r' = Ok d' ->
+    exists v0 v', nth_error d0 i = Some (DTab "TRIG" v0) /\ nth_error d' i = Some (DTab "TRIG" v') /\
+      forall k tv, nth_error (vlist "_triggers" v0) k = Some tv -> nth_error (vlist "_triggers" v') k = Some tv.
+Proof. exact preexisting_triggers_survive_edits_bytewise. Qed.
+Print Assumptions C07_preexisting_triggers_are_unchanged_byte_for_byte.
+
+(* the three facts it rests on: numbers of objects that sit in a slot do not depend on what else has to be placed *)
+Theorem C07_numbers_of_slotted_objects_are_stable :
+  (forall r ls mr l i,
+     filter (named "MRGN") r = [RMrgn ls] -> rebuild_mrgn r = Ok mr -> l_idx l = Some i -> In i (map fst (by_idx ls)) ->
+     find_loc_id l (snd mr) None =
+     find_loc_id l (map (fun l => (l, match l_idx l with Some i => i | None => 0%N end)) ls) None) /\
+  (forall r cs up cx c c' i,
+     filter (named "UPRP") r = [RUprp cs] -> rebuild_uprp r = Ok up -> cx_cuwps cx = up ->
+     c_idx c = Some i -> assocN_last i (cby_idx cs) = Some c' -> rcuwp_eqb c c' = true -> id_by_cuwp cx c = Ok i) /\
+  (forall r sw s k,
+     RichIo.rebuild_swnm r = Ok sw -> s_idx s = Some k -> In s (flat_map section_switches r) ->
+     find_switch_id s (snd sw) None = Some k).
+Proof. exact (conj old_location_number_is_stable (conj old_cuwp_number_is_stable used_switch_number_is_stable)). Qed.
+Print Assumptions C07_numbers_of_slotted_objects_are_stable.
+
+(* non-vacuity: a concrete map (one text shown, one location centred on, units created with a property slot, switch 5 set)
+   and a concrete edit (a new trigger with a NEW text, a NEW index-less location, a NEW nameless switch) meet every premise
+   - computed in the kernel from the map's bytes - and the old trigger's record is where it was *)
+Theorem C07_the_byte_identity_theorem_applies_to_a_concrete_edit :
+  exists v0 v', nth_error w_d0 3 = Some (DTab "TRIG" v0) /\ nth_error w_d' 3 = Some (DTab "TRIG" v') /\
+    forall k tv, nth_error (vlist "_triggers" v0) k = Some tv -> nth_error (vlist "_triggers" v') k = Some tv.
+Proof. exact the_old_trigger_is_unchanged. Qed.
+Print Assumptions C07_the_byte_identity_theorem_applies_to_a_concrete_edit.
